@@ -1,6 +1,6 @@
 SPECIFICATION SpecC
 CONSTANTS
-    Chan = {0, 1}
+    Chan = {0, 1, 2}
     Peer = {1}
     MaxOps = 9
     Impl = "Design"
